@@ -186,17 +186,28 @@ def run(tier: str) -> int:
         cc = []
         for i, parts in out.items():
             r = byid[i]
-            if r.get("asts") and len(parts) == 1 and parts[0]["k2"] == 0 and r["asts"][0]:
-                cc.append((r["name"], 0, r["asts"][0]))
+            # every part of an instruction, the temporary counter chained from part to part as the compiler does (FragCheck.covered_parts)
+            if r.get("asts") and all(p["k2"] == 0 for p in parts) and all(r["asts"]) and len(parts) == len(r["asts"]):
+                cc.append((r["name"], r.get("hpre") or 0, r["asts"]))
         with common.Lock():
-            cv = diffrun.covered("C01", cc)
+            cv_parts = diffrun.covered_parts("C01", cc)
+        cv = {n: all(v) for n, v in cv_parts.items() if v}
+        stats["parts_covered_by_theorem"] = sum(sum(1 for x in v if x) for v in cv_parts.values())
+        stats["parts_checked_for_theorem_coverage"] = sum(len(v) for v in cv_parts.values())
         covered_names = sorted(n for n, v in cv.items() if v)
-        stats["parts_checked_for_theorem_coverage"] = len(cc)
     except Exception as e:
         broken.append(Broken("correspondence", "evaluation of FragCheck.covered", str(e)[-800:]))
     for name, kf in known_sites.items():
         if name in known_hit:
             res.known(f"{kf['id']}: {kf['what']} -- call site {name}")
+    # nothing of the corpus may be skipped silently: an accepted instruction whose parse tree the AST reader cannot map, or whose emitted text
+    # the body reader cannot parse, is outside everything this check decides
+    if info.get("unmapped"):
+        broken.append(Broken("correspondence", "tools/vt/tree2ast.py cannot map the parse tree of shipped instructions", f"{info['unmapped']} instruction(s) skipped"))
+    if info.get("malformed"):
+        k_, v_ = next(iter(info["malformed"].items()))
+        if not k_.split("#")[0] in known_sites:
+            fails.append((k_.split("#")[0], int(k_.split("#")[1]), {"bad": None, "flags": 0, "what": "the emitted text of a shipped instruction is not a well-formed body: " + str(v_)[:300]}))
     if "noped_wrong" in info:
         fails.append((info["noped_wrong"][0], 0, {"bad": None, "flags": 0, "what": "instruction on the no-op list is not translated to NOP"}))
     if substat and any(s != 0 for s in substat):
